@@ -37,28 +37,36 @@ def ast_cfg(headers, macrodefs, topgates, openers, maxnodes, maxdepth, invariant
     return s
 
 
-def enumerate_programs(rep, name, cfg, wd, module='AstConfigs', timeout=1800, sim=None):
+class Progs(list):
+    """the programs kept from an enumeration; .total = number of distinct programs TLC emitted"""
+    total = 0
+
+
+def enumerate_programs(rep, name, cfg, wd, module='AstConfigs', timeout=1800, sim=None, budget=None):
     """Run the builder machine (exhaustive BFS, or sim=(num, depth): TLC's random simulation of the same machine for
-    programs deeper than BFS can reach); return the list of complete programs TLC emitted."""
+    programs deeper than BFS can reach); return the complete programs TLC emitted - all of them, or (budget) a
+    reproducible uniform sample taken while TLC runs (core.Sink), so that memory stays bounded."""
+    sink = core.Sink('<<"PROG", ', budget)
     if sim:
         res = core.run_tlc(module, cfg, wd, timeout=timeout, workers=8, simulate='num=%d' % sim[0], depth=sim[1],
-                           tlc_seed=core.seed() + 1)
+                           tlc_seed=core.seed() + 1, sink=sink)
         rep.add_model_check('AstEnum[%s] simulate num=%d depth=%d' % (name, sim[0], sim[1]), res)
     else:
-        res = core.run_tlc(module, cfg, wd, timeout=timeout)
+        res = core.run_tlc(module, cfg, wd, timeout=timeout, sink=sink)
         rep.add_model_check('AstEnum[%s]' % name, res)
-    progs = []
-    # TLC's workers print in a nondeterministic order: sort, so that seeded sampling is reproducible
-    for line in sorted(set(res['out'].splitlines())):
-        if line.startswith('<<"PROG", '):
-            s = line[len('<<"PROG", '):].rstrip()
-            if not s.endswith('>>'):
-                raise core.MachineryError('truncated PROG line from TLC')
-            p = json.loads(json.loads(s[:-2]))
-            p['natives'] = natives_of_tag(p['natives'])
-            progs.append(p)
+    progs = Progs()
+    for line in sink.all_lines():
+        s = line[len('<<"PROG", '):].rstrip()
+        if not s.endswith('>>'):
+            raise core.MachineryError('truncated PROG line from TLC')
+        p = json.loads(json.loads(s[:-2]))
+        p['natives'] = natives_of_tag(p['natives'])
+        progs.append(p)
     if not progs:
         raise core.MachineryError('AstEnum[%s] emitted no program\n%s' % (name, res['out'][-1500:]))
+    progs.total = sink.total
+    if sink.sampled:
+        rep.cov['exhaustive'] = False
     return progs
 
 
@@ -164,8 +172,8 @@ def run_property(prop, tier, configs, sites_fn, owned, nontrivial, rule, module=
     jobs = []
     for entry in configs[tier]:
         name, consts, budget = entry[:3]
-        progs = enumerate_programs(rep, name, ast_cfg(*consts), wd, sim=entry[3] if len(entry) > 3 else None)
-        rep.cov.setdefault('enumerated_programs', {})[name] = len(progs)
+        progs = enumerate_programs(rep, name, ast_cfg(*consts), wd, sim=entry[3] if len(entry) > 3 else None, budget=budget)
+        rep.cov.setdefault('enumerated_programs', {})[name] = progs.total
         if len(progs) > budget:
             progs = rng.sample(progs, budget)
             rep.cov['exhaustive'] = False
